@@ -23,6 +23,7 @@ type c11Case struct {
 	Spinners   int        `json:"spinners"`
 	GOMAXPROCS int        `json:"gomaxprocs"`
 	Locked     bool       `json:"locked"` // the caller itself already holds its thread
+	Prior      int        `json:"prior"`  // earlier loads (no_new_privs, no thread-sync) on other, pre-existing locked threads
 	Strace     bool       `json:"strace"`
 }
 
@@ -49,6 +50,11 @@ func drawC11(t *rapid.T) c11Case {
 	default:
 		c.Sched = kjob.Sched{Gosched: rapid.IntRange(1, 60).Draw(t, "gosched"), SleepUs: rapid.IntRange(0, 1500).Draw(t, "sleepUs"), Syscalls: rapid.IntRange(0, 4).Draw(t, "syscalls")}
 	}
+	if rapid.IntRange(0, 3).Draw(t, "withPrior") == 0 {
+		// a history: other threads loaded filters of their own before; the bit is per thread
+		c.Prior = rapid.IntRange(1, 2).Draw(t, "prior")
+		c.Flag &^= 1 // a thread-sync would be refused because of the divergent filters, which is not C11's subject
+	}
 	if c.Sched != (kjob.Sched{}) && c.Spinners < 2*c.GOMAXPROCS {
 		// keep every P busy, otherwise the descheduled goroutine simply resumes where it was
 		c.Spinners = 2 * c.GOMAXPROCS
@@ -68,22 +74,28 @@ func checkC11(raw json.RawMessage) (ev.Result, error) {
 	}
 	thread := -1
 	job := &kjob.Job{GOMAXPROCS: c.GOMAXPROCS}
+	// all command threads exist before any load: thread 0 is the (optionally) locked caller, 1.. carry the prior loads
+	job.Steps = append(job.Steps, kjob.Step{Op: "mkthreads", N: 1 + c.Prior})
 	if c.Locked {
-		job.Steps = append(job.Steps, kjob.Step{Op: "mkthreads", N: 1})
 		thread = 0
-	} else {
-		job.Steps = append(job.Steps, kjob.Step{Op: "sleep", N: 0})
 	}
 	sched := c.Sched
-	job.Steps = append(job.Steps,
-		kjob.Step{Op: "spinners", N: c.Spinners}, // 1
-		kjob.Step{Op: "control", Sched: &sched},  // 2
-		kjob.Step{Op: "allstatus"},               // 3
-		kjob.Step{Op: "load", Thread: thread, Sched: &sched, // 4
-			Filter: &kjob.FilterSpec{Policy: c10Policy(), NNP: c.NNP, Flag: c.Flag, HostArch: true}},
-		kjob.Step{Op: "stop-spinners"}, // 5
-		kjob.Step{Op: "allstatus"},     // 6
-	)
+	job.Steps = append(job.Steps, kjob.Step{Op: "spinners", N: c.Spinners})
+	for i := 0; i < c.Prior; i++ {
+		pp := c10Policy()
+		pp.Groups[0].Names = []string{[]string{"getuid", "getgid"}[i%2]}
+		job.Steps = append(job.Steps, kjob.Step{Op: "load", Thread: 1 + i, Filter: &kjob.FilterSpec{Policy: pp, NNP: true, Flag: 0, HostArch: true}})
+	}
+	stControl := len(job.Steps)
+	job.Steps = append(job.Steps, kjob.Step{Op: "control", Sched: &sched})
+	stBefore := len(job.Steps)
+	job.Steps = append(job.Steps, kjob.Step{Op: "allstatus"})
+	stLoad := len(job.Steps)
+	job.Steps = append(job.Steps, kjob.Step{Op: "load", Thread: thread, Sched: &sched,
+		Filter: &kjob.FilterSpec{Policy: c10Policy(), NNP: c.NNP, Flag: c.Flag, HostArch: true}})
+	job.Steps = append(job.Steps, kjob.Step{Op: "stop-spinners"})
+	stAfter := len(job.Steps)
+	job.Steps = append(job.Steps, kjob.Step{Op: "allstatus"})
 	rr, err := kchild.Run(job, kchild.RunOpts{Uid: c.Uid, Strace: c.Strace, Timeout: 60e9})
 	if err != nil {
 		return ev.Result{}, ev.Inconclusivef("%v", err)
@@ -91,9 +103,14 @@ func checkC11(raw json.RawMessage) (ev.Result, error) {
 	if rr.TimedOut || rr.Signaled || !rr.Done() {
 		return ev.Result{}, ev.Inconclusivef("child did not finish (timeout %v, signal %v, exit %d, stderr %q)", rr.TimedOut, rr.Signal, rr.Exit, clip(rr.Stderr, 300))
 	}
-	le := rr.Find(4, "load")
-	ce := rr.Find(2, "control")
-	before, after := rr.Find(3, "status"), rr.Find(6, "status")
+	le := rr.Find(stLoad, "load")
+	ce := rr.Find(stControl, "control")
+	before, after := rr.Find(stBefore, "status"), rr.Find(stAfter, "status")
+	for i := 0; i < c.Prior; i++ {
+		if pl := rr.Find(2+i, "load"); len(pl) != 1 || !pl[0].Nil {
+			return ev.Result{}, ev.Inconclusivef("prior load %d did not succeed", i)
+		}
+	}
 	if len(le) != 1 || len(ce) != 1 || len(before) != 1 || len(after) != 1 {
 		return ev.Result{}, ev.Inconclusivef("events missing")
 	}
@@ -107,7 +124,10 @@ func checkC11(raw json.RawMessage) (ev.Result, error) {
 			res.Classes = append(res.Classes, "control-goroutine-migrated")
 		}
 	}
-	desc := fmt.Sprintf("uid %d, no_new_privs=%v, flags %#x, perturbation %+v with %d spinners, GOMAXPROCS %d", c.Uid, c.NNP, c.Flag, c.Sched, c.Spinners, c.GOMAXPROCS)
+	desc := fmt.Sprintf("uid %d, no_new_privs=%v, flags %#x, perturbation %+v with %d spinners, GOMAXPROCS %d, %d earlier load(s) on other threads", c.Uid, c.NNP, c.Flag, c.Sched, c.Spinners, c.GOMAXPROCS, c.Prior)
+	if c.Prior > 0 {
+		res.Classes = append(res.Classes, "after-loads-on-other-threads")
+	}
 	if ld.Panic != "" {
 		return res, fmt.Errorf("LoadFilter panicked: %s", ld.Panic)
 	}
@@ -141,7 +161,7 @@ func checkC11(raw json.RawMessage) (ev.Result, error) {
 			if old, ok := bef[s.Tid]; ok && old != s.NNP {
 				return res, fmt.Errorf("no_new_privs was not requested, but the bit of thread %d changed %d -> %d", s.Tid, old, s.NNP)
 			}
-			if s.NNP != 0 {
+			if old, ok := bef[s.Tid]; s.NNP != 0 && !(ok && old == 1) {
 				return res, fmt.Errorf("no_new_privs was not requested, but thread %d has the bit set", s.Tid)
 			}
 		}
@@ -154,9 +174,13 @@ func checkC11(raw json.RawMessage) (ev.Result, error) {
 			if ld.Nil {
 				return res, fmt.Errorf("unprivileged load without no_new_privs returned nil")
 			}
+			befSec := map[int]int{}
+			for _, s := range before[0].Status {
+				befSec[s.Tid] = s.Filters
+			}
 			for _, s := range after[0].Status {
-				if s.Seccomp != 0 {
-					return res, fmt.Errorf("unprivileged load without no_new_privs failed, but thread %d has Seccomp=%d", s.Tid, s.Seccomp)
+				if old, ok := befSec[s.Tid]; (ok && s.Filters != old) || (!ok && s.Seccomp != 0 && c.Prior == 0) {
+					return res, fmt.Errorf("unprivileged load without no_new_privs failed, but thread %d has Seccomp=%d Seccomp_filters=%d", s.Tid, s.Seccomp, s.Filters)
 				}
 			}
 			res.Classes = append(res.Classes, "unprivileged-load-refused")
@@ -172,9 +196,14 @@ func checkC11(raw json.RawMessage) (ev.Result, error) {
 				calls = append(calls, s)
 			}
 		}
+		// the prior loads come first (one prctl and one seccomp each); the observed load is last
+		if len(calls) < 2*c.Prior {
+			return res, ev.Inconclusivef("strace saw only %d calls", len(calls))
+		}
+		calls = calls[2*c.Prior:]
 		if c.NNP {
 			if len(calls) != 2 || calls[0].Name != "prctl" || calls[1].Name != "seccomp" {
-				return res, fmt.Errorf("strace: expected prctl(PR_SET_NO_NEW_PRIVS) followed by seccomp, saw %v", calls)
+				return res, fmt.Errorf("strace: expected prctl(PR_SET_NO_NEW_PRIVS) followed by seccomp, saw %v (%s)", calls, desc)
 			}
 			if calls[0].Tid != calls[1].Tid {
 				return res, fmt.Errorf("strace: prctl(PR_SET_NO_NEW_PRIVS) ran on thread %d, seccomp on thread %d (%s)", calls[0].Tid, calls[1].Tid, desc)
